@@ -8,15 +8,20 @@ use crate::refsem::lexer::blank_comments;
 use serde_json::{json, Value};
 use std::path::Path;
 
-pub const SHAPES: [&str; 12] = [
+pub const SHAPES: [&str; 14] = [
     "/**/", "/***/", "/* x **/", "/*/ */", "//*\n", "// \"\n", "/* \" */", "/* é */", "/* // */", "// /*\n", "/* * / */", "/*\n*/",
+    // many multi-byte characters: byte and character offsets after the comment differ by more
+    // than a line
+    "/* 漢字漢字漢字漢字漢字漢字漢字漢字漢字漢字漢字漢字漢字漢字漢字漢字 */",
+    "// üüüüüüüüüüüüüüüüüüüüüüüüüüüüüüüüüüüüüüüüüüüüüüüüüüüüüüüüüüüüüüüü\n",
 ];
 
 pub fn check_variant(name: &str, text: &str, dir: &Path, case: &Value) -> Vec<Violation> {
     let mut out = Vec::new();
     let Some(blanked) = blank_comments(text) else { return out };
+    // Both variants are written to the same path, one after the other (messages may quote it).
     let a = analyse(text, &dir.join("c"));
-    let b = analyse(&blanked, &dir.join("b"));
+    let b = analyse(&blanked, &dir.join("c"));
     match (a, b) {
         (Ok(a), Ok(b)) => {
             let fa = sorted(a.findings.iter().map(by_position).collect());
@@ -67,8 +72,8 @@ pub fn check_unclosed(name: &str, text: &str, dir: &Path, case: &Value) -> Vec<V
 
 pub fn run(run: &Run) {
     run.set_rule(
-        "part (b): 8 corpus files x every token gap x 12 comment shapes {/**/, /***/, /* x **/, /*/ */, //*, // \", \
-         /* \" */, /* e-acute */, /* // */, // /*, /* * / */, multi-line}, commented file vs the same file \
+        "part (b): 10 corpus files (one without any token) x every token gap x 14 comment shapes {/**/, /***/, /* x **/, /*/ */, //*, // \", \
+         /* \" */, /* e-acute */, /* // */, // /*, /* * / */, multi-line, 32 CJK characters, 64 u-umlaut}, commented file vs the same file \
          with the comment blanked: identical findings at identical byte positions; unclosed `/*` at every \
          gap (a slice) must yield an error",
     );
